@@ -38,8 +38,9 @@ META = dict(
          "uuid/datetime/str.isidentifier; ipv6_address vs ipaddress; QuotedString round trip and verbatim source with "
          "unquote_results=False (reference encoder, all parameter combinations); dbl/sgl/quoted_string + remove_quotes; "
          "nested_expr vs a bracket reader; DelimitedList min/max/trailing delimiter; counted_array exact count. There is "
-         "no Lean model of QuotedString/nested_expr/DelimitedList/counted_array yet. Three open known findings are "
-         "registered (ipv6_embedded_ipv4_forms, delimited_max1_trailing, quoted_numeric_escapes).",
+         "no Lean model of QuotedString/nested_expr/DelimitedList/counted_array yet. Two open known findings are "
+         "registered (ipv6_embedded_ipv4_forms, delimited_max1_trailing); quoted_numeric_escapes is fixed (31e7764) and "
+         "its region (numeric escapes written by the reference encoder) is generated again.",
     note="Trusted: Lean kernel; axioms propext/Classical.choice/Quot.sound; the regex model (parser + matcher `m` + "
          "capture-free `ends` on which the theorems are stated) is a hand-written model of CPython re, validated only "
          "differentially on every run (every built-in pattern x generated strings: match end, groups, ends==m); "
@@ -990,12 +991,17 @@ def quoted_oracle(ctx, pp):
     outcomes = {}
     e = ctx.match_known("quoted_numeric_escapes")
     numeric_ok = e is None
-    if e is not None:
-        w = e["witness"]
+    for ent in ctx.known_entries:
+        if ent.get("signature") != "quoted_numeric_escapes":
+            continue
+        # open: reported as KNOWN-FINDING while it still fails; fixed: an ordinary regression case
+        w = ent["witness"]
         d = check_quoted(pp, w["quoted"], w["content"], w["style"])
+        n += 1
         if d not in (None, "skip"):
             ctx.fail_input("QuotedString does not convert \\xHH / \\uHHHH / \\OOO escapes", w, d[0], d[1],
-                           signature="quoted_numeric_escapes")
+                           theorem="C18 quoted_roundtrip (oracle, search only)",
+                           signature="quoted_numeric_escapes" if ent.get("status", "open") == "open" else None)
     cfgs = qs_configs(rng, ctx.budget(1200, 12000))
     for cfg in cfgs:
         E = cfg["end_quote_char"] or cfg["quote_char"]
